@@ -423,7 +423,11 @@ def generate_bufr_message(decoder, s, info_only=False, continue_on_error=False, 
                     s[idx_start:], start_signature=None, info_only=True, *args, **kwargs
                 )
                 matched = sr.run(bufr_message)
-                if matched and not info_only:
+                # A table definition message is decoded in full even when the filter rejects it:
+                # the definitions it carries govern the messages that follow
+                if not info_only and (matched or (
+                        bufr_message.data_category.value == DATA_CATEGORY_DEFINE_BUFR_TABLES
+                        and bufr_message.n_subsets.value > 0)):
                     bufr_message = decoder.process(
                         s[idx_start:], start_signature=None, info_only=False, *args, **kwargs
                     )
